@@ -14,4 +14,58 @@ PROPS = {
         "level_text": "Theorem for all byte strings about the Gallina mirror of the CanCall scanner; the mirror is tied to the code by a differential run on every check",
         "level_note": "trusted: Coq kernel, extraction (ExtrOcamlBasic/ExtrOcamlString), Go harness generators; modelled not verified: encoding/json",
     },
+    "C12": {
+        "coq": ["Props/C12.v"],
+        "level": "proof",
+        "harness": ["purediff"],
+        "stages": [("pure", stage_pure, {"suites": ["pattern", "lcs", "ressub"], "n_quick": 6000, "n_thorough": 150000})],
+        "rule": "patterns/names over a token alphabet with wildcards, invalid tokens and byte mutations (names derived from the pattern "
+                "so matches are frequent); all pairs of collections up to length 3 over 2 value classes plus random edit-distance pairs "
+                "up to length 10 over <=5 classes of all four value kinds; direct-drive op sequences (events, reset start/answers incl. "
+                "notFound, errors, type mismatch) on one real ResourceSubscription; non-trivial = valid pattern / non-empty diff / "
+                "sequence that emitted an event; distinct by input",
+        "assumptions": ["encoding/json decoding of payloads is exercised but not modelled", "fan-out of resets over the cache map (forEachMatch) is checked on implementation traces only (gwrun)"],
+        "technique": "Coq proofs (wildcard matcher = token matching; lcs edit script patches a into b for an arbitrary table; unchanged => no event) + differential correspondence of ParseResourcePattern/Match, lcs and the reset path of a real ResourceSubscription with the extracted models",
+        "level_text": "Unbounded theorems about Gallina mirrors of the matcher and the diff routine, tied to the code by differential runs (pure functions) and direct-drive op sequences (reset handling) on every check",
+        "level_note": "trusted: Coq kernel, extraction, Go harness generators and the verif-tagged exports VerifLcs/VerifRS; modelled not verified: encoding/json",
+    },
+    "C14": {
+        "coq": ["Props/C14.v"],
+        "level": "proof",
+        "harness": ["purediff"],
+        "stages": [("pure", stage_pure, {"suites": ["valid_rid", "dispatch", "httppath"], "n_quick": 8000, "n_thorough": 200000})],
+        "rule": "all 256 bytes in 4 positions for IsValidRID/IsValidRIDPart; dotted strings over a token alphabet with control bytes, "
+                "wildcards, invalid UTF-8, {cid}, queries, byte mutations; WebSocket method strings through the real rpc.HandleRequest with "
+                "a recording requester; HTTP paths with percent-escapes of every byte under 4 apiPath prefixes; non-trivial = accepted input",
+        "assumptions": ["net/url PathEscape/PathUnescape are modelled (HttpPath.v) and differential-tested, not verified", "encoding/json replaces invalid UTF-8 in method strings before the gateway sees them"],
+        "technique": "Coq proof (accepted resource ids give clean subject tokens, all byte strings) + differential correspondence of IsValidRID, IsValidRIDPart, HandleRequest's method split, PathToRID(Action), RIDToPath with the extracted models",
+        "level_text": "Unbounded theorem about the Gallina mirror of the validator; dispatcher and path mapping tied by differential runs with a spec check on the implementation's own output (forwarded parts must be subject-clean and re-assemble to the input)",
+        "level_note": "trusted: Coq kernel, extraction, Go harness; modelled not verified: net/url, encoding/json",
+    },
+    "C17": {
+        "coq": ["Props/C17.v"],
+        "level": "proof",
+        "harness": ["purediff"],
+        "stages": [("pure", stage_pure, {"suites": ["status", "origin", "header"], "n_quick": 8000, "n_thorough": 200000})],
+        "rule": "all defined error codes + unknown codes; every status -5..1023 for statusError / IsDirectResponseStatus / IsValidStatus "
+                "(exhaustive over that range); allow-lists accepted by the configuration validator against origins in mixed case, with "
+                "ports, non-ASCII and invalid UTF-8 and byte mutations; meta headers in random letter case incl. all protected names, "
+                "multi-valued, merged into random response headers; non-trivial = match / non-empty meta",
+        "assumptions": ["textproto.CanonicalMIMEHeaderKey is modelled for valid header tokens only", "net/http response writing is not modelled"],
+        "technique": "Coq proofs (status tables for all integers/codes) + differential correspondence of errorStatus, statusError, Meta status predicates, matchesOrigins, Canonicalize+MergeHeader with the extracted models and spec checks",
+        "level_text": "Table theorems for all Z and all codes; header merge and origin matching tied by differential runs with spec checks on the implementation's own output",
+        "level_note": "trusted: Coq kernel, extraction, Go harness; modelled not verified: net/textproto, net/http",
+    },
+    "C19": {
+        "coq": ["Props/C19.v"],
+        "level": "proof",
+        "harness": ["purediff"],
+        "stages": [("pure", stage_pure, {"suites": ["throttle"], "n_quick": 3000, "n_thorough": 40000})],
+        "rule": "random Add/Done sequences on the real rescache.Throttle for limits 1..4 (Done mostly within the call contract, 8% outside "
+                "it to exercise the panic branch); observed: which starters ran after each call; non-trivial = more than 2 calls",
+        "assumptions": ["goroutine scheduling of `go cb()` is observed with a bounded wait, not modelled"],
+        "technique": "Coq proof (bound, FIFO progress, no panic under the call contract, all op sequences) + differential correspondence of the real Throttle with the extracted step function",
+        "level_text": "Unbounded invariant proof on the throttle machine tied to the code by op-sequence differential; the system-level bound is checked on implementation traces (gwrun)",
+        "level_note": "trusted: Coq kernel, extraction, Go harness timing (2 s wait for a released starter)",
+    },
 }
